@@ -14,7 +14,8 @@
                                              session_loop + negotiator_body
      features.go    negotiateFeatures     -> negotiate_features, after_read,
                                              init_loop (selection loop), after_pick
-                    readStreamFeatures    -> read_children
+                    readStreamFeatures    -> read_children (+ add_adv: s.features)
+     session.go     restart block         -> reset_stream (s.features, s.negotiated emptied)
      starttls.go    StartTLS.Negotiate    -> starttls_negotiate
      conn.go        teeConn               -> the [istee] flag (a teeConn forwards
                                              every byte unchanged; what it copies
